@@ -374,6 +374,32 @@ def _vmdk_read_sectors():
                       note="number of extents, their sizes and the request symbolic; reads that cross extent boundaries and that end exactly at the end of the last extent")
 
 
+def _vmdk_read_sectors_termination():
+    """C11: no well-formedness of the extents (zero or negative sector counts from the descriptor, any request, also one that starts at or
+    runs past the end of the last extent): the extent walk still terminates -- every iteration moves to the next extent, and indexing
+    past the last one raises"""
+    sector0, count0 = z3.Ints("sector0 count0")
+
+    def mk():
+        m = VmdkModel()
+        m.hyps = [m.n >= 1]  # (bisect_right's contract speaks about a list of n - 1 offsets)
+        return m
+
+    def inv(eng, st):
+        m = eng.model
+        di = st.env.get("disk_idx")
+        if di is None:
+            return z3.BoolVal(False)  # no extent cursor is live at the loop head: the termination argument of this contract does not apply
+        return z3.And(di.e >= 0, di.e <= m.n)
+
+    return FnContract(FILE, "VMDK.read_sectors", ["C11"], mk,
+                      params=lambda m: {"self": ObjV("self"), "sector": IntV(sector0), "count": IntV(count0)},
+                      requires=lambda m: m.hyps, post=lambda eng, st, rv: [],
+                      loops={("While", 0): LoopSpec(inv, lambda eng, st: eng.model.n - st.env["disk_idx"].e if "disk_idx" in st.env else z3.IntVal(-1))},
+                      mode="termination", allow_any_exception=True,
+                      note="variant: number of extents not yet visited (the step in sectors is descriptor-derived and may be zero); sector and count arbitrary integers")
+
+
 class VmdkStreamModel(Model):
     def __init__(self):
         super().__init__()
@@ -659,7 +685,7 @@ def trusted(pid):
 
 
 def contracts(repo):
-    return [_get_runs("functional"), _read_sectors(repo), _raw_read_sectors(), _vmdk_read_sectors(), _vmdk_read(), _get_runs("termination"),
+    return [_get_runs("functional"), _read_sectors(repo), _raw_read_sectors(), _vmdk_read_sectors(), _vmdk_read(), _get_runs("termination"), _vmdk_read_sectors_termination(),
             _lookup_grain(False, repo), _lookup_grain(True, repo), _lookup_grain_table(False), _lookup_grain_table(True), _read_compressed_grain(True), _read_compressed_grain(False)]
 
 
